@@ -195,6 +195,8 @@ def do_run(names, tier, checks_override=None, sandbox=None):
 def main(argv):
     if argv and argv[0] == "import":
         return do_import(argv[1], argv[2], argv[3])
+    if argv and argv[0] == "table":
+        return table()
     if argv and argv[0] == "run":
         tier = "quick"
         names = []
@@ -217,6 +219,49 @@ def main(argv):
         return do_run(names, tier, checks, sandbox)
     print(__doc__)
     return 2
+
+
+
+
+def consolidate():
+    """Merge seeded/RESULTS*.json (one per sandbox run) into seeded/RESULTS.json, keeping the
+    history of every change: the first run (before any strengthening) and the latest."""
+    import glob
+    main = os.path.join(SEEDED, "RESULTS.json")
+    merged = json.load(open(main)) if os.path.exists(main) else {}
+    for k, v in list(merged.items()):
+        if "history" not in v:
+            merged[k] = {"property": v["property"], "history": [dict(v, source="in place")]}
+    parts = sorted((p for p in glob.glob(os.path.join(SEEDED, "RESULTS.*.json"))), key=os.path.getmtime)
+    for p in parts:
+        src = os.path.basename(p)[len("RESULTS."):-len(".json")]
+        for k, v in json.load(open(p)).items():
+            e = merged.setdefault(k, {"property": v["property"], "history": []})
+            e["history"].append(dict(v, source="sandbox " + src))
+        os.remove(p)
+    with open(main, "w") as f:
+        json.dump(merged, f, indent=1, sort_keys=True)
+    return merged
+
+
+def table():
+    merged = consolidate()
+    rows = ["| change | property | needs to manifest (short) | first run | latest run | signatures (latest) |", "|---|---|---|---|---|---|"]
+    for name in sorted(merged):
+        e = merged[name]
+        h = e["history"]
+        meta = json.load(open(os.path.join(SEEDED, name, "meta.json")))
+        need = meta.get("needs_to_manifest", "").strip().splitlines()
+        title = need[0].lstrip("# ").strip() if need else ""
+        def verdict(r):
+            c = r["checks"]
+            return ", ".join("%s %s" % (k, "caught" if x["caught"] else ("inconclusive" if x["rc"] == 2 else "missed")) for k, x in c.items())
+        sigs = []
+        for x in h[-1]["checks"].values():
+            sigs += [s.split(" (x")[0] for s in x["signatures"][:2]]
+        rows.append("| %s | %s | %s | %s | %s | %s |" % (name, e["property"], title[:110].replace("|", "/"), verdict(h[0]), verdict(h[-1]) if len(h) > 1 else "=", "; ".join("`%s`" % s.replace("|", "\\|") for s in sigs[:2])))
+    print("\n".join(rows))
+    return 0
 
 
 if __name__ == "__main__":
